@@ -38,6 +38,8 @@ func c10(c *Ctx) {
 	r.Rule("C10.invalid-clean", "guards dominate effects: WriteControl reaches the mutex/transport only with isControl(type) and len(data) <= 125; beginMessage succeeds only for control/data types; flushFrame calls write for a control frame only when final and length <= 125, the compared length being the one encoded in the header; rejected requests never call writeFatal")
 	r.Rule("C10.deadline", "the time given to SetWriteDeadline before each transport write is the section's deadline parameter; callers of write pass the current Conn.writeDeadline, which only SetWriteDeadline(t) assigns (from its parameter)")
 	r.Assume("net.Conn implementations report partial writes through a non-nil error (io.Writer contract)")
+	r.Rule("C10.prepared-validated", "a PreparedMessage is rendered by WriteMessage on a private connection, so an invalid request (bad type, oversized control payload) is refused when the message is created or first sent, exactly as for WriteMessage (same rule as C19.key-complete)")
+	c.borrow(c19, map[string]string{"C19.key-complete": "C10.prepared-validated"})
 	r.Rule("C10.detector-released", "the concurrent-write detector (Conn.isWriting) is released on every return of the function that set it, also when the write failed: later writes then return the recorded error instead of panicking with 'concurrent write'")
 	isWritingBracket(c, "C10.detector-released")
 	t := newTransport(c)
